@@ -9,6 +9,7 @@ from warnings import warn
 from quansino.mc.canonical import Canonical
 from quansino.mc.contexts import ExchangeContext
 from quansino.mc.criteria import CanonicalCriteria, GrandCanonicalCriteria
+from quansino.moves.composite import CompositeMove
 from quansino.moves.displacement import DisplacementMove
 from quansino.moves.exchange import ExchangeMove
 
@@ -213,10 +214,16 @@ class GrandCanonical(
 
     def save_state(self) -> None:
         """Save the current state of the context and update move labels."""
-        unique_moves = {
-            id(move_storage.move): move_storage.move
-            for move_storage in self.moves.values()
-        }
+        pending = [move_storage.move for move_storage in self.moves.values()]
+        unique_moves = {}
+
+        while pending:
+            move = pending.pop(0)
+
+            if isinstance(move, CompositeMove):
+                pending[:0] = move.moves
+            else:
+                unique_moves.setdefault(id(move), move)
 
         for move in unique_moves.values():
             move.on_atoms_changed(
